@@ -34,6 +34,11 @@ def _err(code):
     return OSError(code, "sim: %s" % errno.errorcode.get(code, code))
 
 
+# errors after which the kernel has torn the connection down (a later getpeername() gives ENOTCONN)
+_HARD_LOSS = frozenset(getattr(errno, n) for n in ("ECONNRESET", "ECONNABORTED", "ETIMEDOUT", "EHOSTUNREACH", "EHOSTDOWN",
+                                                   "ENETUNREACH", "ENETDOWN", "ENETRESET", "EPIPE", "ECONNREFUSED"))
+
+
 class Faults(object):
     """Fault table looked up by (site, occurrence)."""
 
@@ -192,7 +197,9 @@ class SimSocket(object):
 
     def getpeername(self):
         self._check_open()
-        if self.state != "established" or self.raddr is None:
+        # measured on Linux loopback: once recv()/send() has reported the loss of the connection (ECONNRESET, ...) the
+        # socket is unconnected again and getpeername() fails with ENOTCONN
+        if self.state != "established" or self.raddr is None or getattr(self, "lost", False):
             raise _err(errno.ENOTCONN)
         return self.raddr
 
@@ -321,6 +328,7 @@ class SimSocket(object):
             if f[0] == "eagain":
                 raise _err(errno.EAGAIN)
             if f[0] == "errno":
+                self.lost = f[1] in _HARD_LOSS
                 raise _err(f[1])
         if self.got_rst:
             raise _err(errno.EPIPE)
@@ -361,12 +369,14 @@ class SimSocket(object):
             if f[0] == "eagain":
                 raise _err(errno.EAGAIN)
             if f[0] == "errno":
+                self.lost = f[1] in _HARD_LOSS
                 raise _err(f[1])
         p = self.rxpipe
         if p.reset:
             p.reset = False
             p.rx.clear()
             p.fin = True
+            self.lost = True
             raise _err(errno.ECONNRESET)
         if p.rx:
             n = min(bufsize, len(p.rx))
